@@ -79,6 +79,12 @@ func (H) Tune(prop string, plan any, cfg *simrt.Config) {
 	cfg.MaxSteps = 300000
 	cfg.MaxAdvIdx = 2
 	cfg.IdleBound = 10 * 24 * time.Hour // the workload itself sleeps for days of simulated time
+	if p2, ok := plan.(*C02Plan); ok && p2.BgMaint {
+		// The reference model stamps a record with the time at which its operation begins. With maintenance
+		// interleaved an operation takes many more steps, and a clock step in the middle of it would make the
+		// stamps differ by more than the model's tolerance: time only passes where the workload sleeps.
+		cfg.PAdvance = 0
+	}
 }
 
 func freshDir() string {
